@@ -144,12 +144,95 @@ def main():
                 c.violation("implementation violates C04: " + what, "# C04 replay\n" + "\n".join(ml) + "\n")
     except Exception:
         pass
+    # ---- planner level: optimizing planners solved repeatedly under three objectives; every stored solution re-costed
+    import subprocess, concurrent.futures as cf, time
+    try:
+        cdrv = c.build_driver("cost_driver", link_ompl=True)
+    except vf.BuildError as ex:
+        c.broken.append("correspondence C04: cost driver does not build: " + str(ex)[-300:]); c.finish()
+    OPT = "RRTstar InformedRRTstar SORRTstar RRTsharp RRTXstatic BITstar ABITstar AITstar EITstar EIRMstar PRMstar LazyPRMstar FMT BFMT LBTRRT LazyLBTRRT SST TRRT CForest AnytimePathShortening".split()
+    pjobs = []
+    for pl_ in OPT:
+        for objn in ("length", "integral", "clearance"):
+            for r in range(1 if quick else 6):
+                pjobs.append("CRUN %s %s %s %d %s %g %d %g %d" % (pl_, rng.choice(["R2", "SE2", "R3"]) if r else "R2", rng.choice(["boxes3", "gap", "circles5", "empty", "thin"]), rng.randint(0, 1), objn,
+                                                                rng.choice([0, 1.3, 2.0]), rng.randint(1, 10 ** 6), 0.25 if quick else 0.6, 3))
+    def run_job(j):
+        try:
+            r = subprocess.run([cdrv] + j.split(), capture_output=True, text=True, timeout=120); return j, r.returncode, r.stdout
+        except subprocess.TimeoutExpired: return j, -999, ""
+    t0 = time.time()
+    with cf.ThreadPoolExecutor(12) as ex: pres = list(ex.map(run_job, pjobs))
+    c.step("impl:planner-costs", "%s CRUN ... (%d runs x 3 solves)" % (cdrv, len(pjobs)), time.time() - t0, True)
+    pstats = collections.Counter(); pfail = collections.Counter(); plines = []; pmeta = []
+    def ppred(j, msg, slug=None):
+        nonlocal npred, first_pred
+        if slug and c.known_finding(slug, msg + " ('%s')" % j): pstats["known:" + slug] += 1; return
+        npred += 1; pfail[j.split()[1] + ": " + msg[:60]] += 1
+        if first_pred is None: first_pred = ("PLANNER", j + " :: " + msg)
+    for j, rcj, out in pres:
+        w = j.split(); pl_, objn = w[1], w[5]
+        if "SKIP" in out: pstats["skipped"] += 1; continue
+        if "END" not in out: pstats["no_return"] += 1; continue       # crashes / hangs are C03's subject
+        kind = 2 if objn == "clearance" else 1
+        best_prev = None; cur = []
+        def flush(k):
+            nonlocal best_prev
+            if not cur: return
+            pstats["solution_sets"] += 1
+            # order: the model's insertion sort of the same multiset must give the same rank sequence
+            plines.append("N"); 
+            for s_ in cur: plines.append("ADD %d %d %d %d %d %d" % (s_["approx"], max(s_["diff"], 0) if s_["approx"] else 0, s_["opt"], kind if s_["hasopt"] else 0, s_["stored"] if s_["hasopt"] else 0, s_["len"]))
+            pmeta.append((j, k, [dict(x) for x in cur]))
+            top = cur[0]
+            if top["hasopt"] and not top["approx"]:
+                if best_prev is not None and ((kind == 1 and top["stored"] > best_prev + max(1000, best_prev // 10 ** 7)) or (kind == 2 and top["stored"] < best_prev - 1000)):
+                    ppred(j, "the best stored cost got worse across solve() calls: %g -> %g (solve %d)" % (best_prev / 1e9, top["stored"] / 1e9, k))
+                best_prev = top["stored"]
+        for l in out.split("\n"):
+            t = l.split()
+            if not t: continue
+            if t[0] == "SOLVE":
+                if cur: flush(int(t[1]) - 1)
+                cur = []
+            elif t[0] == "SOL":
+                s_ = dict(approx=int(t[2]), diff=int(t[3]), opt=int(t[4]), hasopt=int(t[5]), stored=int(t[6]), true=int(t[7]), len=int(t[8]), lower=int(t[9]), sat=int(t[10]))
+                cur.append(s_); pstats["solutions"] += 1
+                if s_["hasopt"]:
+                    tol = max(2000, abs(s_["true"]) // 10 ** 6)
+                    better = (s_["stored"] < s_["true"] - tol) if kind == 1 else (s_["stored"] > s_["true"] + tol)
+                    if better: ppred(j, "stored cost %.9f is better than the true cost %.9f of the path under the objective (%s)" % (s_["stored"] / 1e9, s_["true"] / 1e9, objn))
+                    if not s_["approx"] and bool(s_["opt"]) != bool(s_["sat"]): ppred(j, "solution marked optimized=%d but its stored cost %s the objective's threshold" % (s_["opt"], "satisfies" if s_["sat"] else "does not satisfy"))
+                if kind == 1 and s_["lower"] > -10 ** 17 and s_["true"] < s_["lower"] - max(2000, s_["lower"] // 10 ** 6):
+                    ppred(j, "true cost %.9f is below the admissible lower bound %.9f (%s)" % (s_["true"] / 1e9, s_["lower"] / 1e9, objn))
+        flush(99)
+    if plines:
+        rcm, om, em, sm = vf.sh([model, "sol"], input="\n".join(plines) + "\n", timeout=900); c.step("correspond:model-planner-order", model + " sol", sm, rcm == 0)
+        mo2 = om.split("\n"); kk = 0
+        for (j, k, cur) in pmeta:
+            kk += 1  # the "N" line
+            last = None
+            for _ in cur: last = mo2[kk] if kk < len(mo2) else ""; kk += 1
+            try: mord = [int(x) for x in last.split("|")[1].split()]
+            except Exception: continue
+            def rk(s_): return rank((s_["approx"], max(s_["diff"], 0) if s_["approx"] else 0, s_["opt"], (2 if j.split()[5] == "clearance" else 1) if s_["hasopt"] else 0, s_["stored"] if s_["hasopt"] else 0, s_["len"]))
+            iranks = [rk(x) for x in cur]; mranks = [rk(cur[i]) for i in mord]
+            mixed = len(set(x["hasopt"] for x in cur)) > 1
+            if iranks != sorted(iranks) and not mixed: ppred(j, "the problem definition does not hand out the solutions best-first after solve %d: ranks %s" % (k, iranks[:6]))
+            if iranks != mranks and not mixed:
+                ndiff += 1
+                if first_diff is None: first_diff = ([], "planner solution set of '%s' solve %d: implementation ranks %s model %s" % (j, k, iranks[:6], mranks[:6]))
+    c.cov.update({"planner_runs": len(pjobs), "planner_histogram": dict(pstats), "planner_failures_by_kind": dict(pfail)})
+    c.cov["evaluations"] += len(pjobs) * 3
+    c.assumptions[:] = [a for a in c.assumptions if "planner-level clauses" not in a] + ["planner-level clauses are checked per run on 20 optimizing planners x {path length, state-cost integral, max-min clearance} x 3 consecutive solves, not proved; weighted multi-objective and mechanical work are not exercised"]
+    if first_pred and first_pred[0] == "PLANNER":
+        c.violation("implementation violates C04: " + first_pred[1], "# C04 replay: build/harness/cost_driver <the line>\n" + first_pred[1].split(" :: ")[0] + "\n"); c.finish()
     if first_pred:
         st, bad = first_pred
         c.violation("implementation violates C04: " + bad, "# C04 replay: bin/check C04 --replay <this file>\nN\n" + "\n".join("ADD %d %d %d %d %d %d" % s for s in st) + "\n")
     elif first_diff:
         st, _ = first_diff
-        c.broken.append("correspondence C04 (ProblemDefinition solution order vs SolModel) differs on: " + " ; ".join("ADD %d %d %d %d %d %d" % s for s in st))
+        c.broken.append("correspondence C04 (ProblemDefinition solution order vs SolModel) differs on: " + (_ if not st else " ; ".join("ADD %d %d %d %d %d %d" % s for s in st)))
     c.finish()
 
 
